@@ -150,6 +150,7 @@ class RowDenoisingTransformer(BaseEstimator, TransformerMixin):
 
         """
         if scipy.sparse.issparse(X):
+            X = X.copy()
             X.eliminate_zeros()
             if X.nnz == 0:
                 warn("Cannot fit an empty matrix")
@@ -221,6 +222,9 @@ class RowDenoisingTransformer(BaseEstimator, TransformerMixin):
             The matrix X with the low-rank effects removed.
 
         """
+        if scipy.sparse.issparse(X):
+            X = X.copy()
+            X.eliminate_zeros()
         self.fit(X, **fit_params)
         if X.nnz == 0:
             return X
